@@ -20,7 +20,7 @@ RULE = (
     "stdin and -i, stdout and -o; the printed expression is parsed and compared on all assignments with the conjunction of the selected function's return bits, DIMACS by "
     "search for a one-to-one numbering, QASM with the API export; non-trivial = the selected function is non-constant; distinct by (script, options)"
 )
-DECIDING = ["py2bexp_runs", "expressions_compared", "dimacs_compared", "py2qasm_runs", "subprocess_runs", "entrypoint_selected"]
+DECIDING = ["aliased_entry_points", "py2bexp_runs", "expressions_compared", "dimacs_compared", "py2qasm_runs", "subprocess_runs", "entrypoint_selected"]
 ASSUMPTIONS = ["a script with several functions and no -e option is outside the claim (the property only states the single-function case)", "the expression parser follows sympy's printed precedence ~ > & > ^ > |"]
 CASE_TIMEOUT = {"quick": 90, "thorough": 240}
 FORMS = [None, "anf", "cnf", "dnf", "nnf"]
@@ -58,6 +58,10 @@ def cases(tier, seed):
 
 
 CORPUS = [
+    # module-level names that differ from the def name, and a redefinition whose first version stays reachable
+    {"kind": "script", "fns": [{"name": "f", "src": "def f(a: bool, b: bool) -> bool:\n    return a and not b\n", "alias": "g"}, {"name": "h", "src": "def h(a: bool, b: bool) -> bool:\n    return a ^ b\n"}], "sub": False},
+    {"kind": "script", "fns": [{"name": "check", "src": "def check(a: Qint[2]) -> bool:\n    return a == 1\n", "alias": "baseline"}, {"name": "check", "src": "def check(a: Qint[2]) -> bool:\n    return a == 2\n"}], "sub": True},
+    {"kind": "script", "fns": [{"name": "zz", "src": "def zz(a: bool, b: bool, c: bool) -> bool:\n    return (a or b) and not c\n", "alias": "aaa"}, {"name": "mm", "src": "def mm(a: bool, b: bool) -> bool:\n    return a or b\n", "alias": "zzz"}], "sub": False},
     {"kind": "script", "fns": [{"name": "f", "src": "def f(a: bool, b: bool) -> bool:\n    return a or b\n"}], "sub": True},
     {"kind": "script", "fns": [{"name": "f", "src": "def f(a: bool, b: bool, c: bool) -> bool:\n    return a or b or not c\n"}], "sub": False},
     {"kind": "script", "fns": [{"name": "f", "src": "def f(a: bool) -> bool:\n    return a\n"}], "sub": False},
@@ -125,7 +129,9 @@ def _check_inner(case):
     from qlasskit.qcircuit.exporter_qasm import QasmExporter
 
     fns = case["fns"]
-    script = HEADER + "\n".join("@qlassf\n" + f["src"] for f in fns)
+    # a function may also be bound to a second module-level name right after its definition ("alias"); a later definition
+    # of the same name replaces the earlier one under that name
+    script = HEADER + "\n".join("@qlassf\n" + f["src"] + (f"\n{f['alias']} = {f['name']}\n" if f.get("alias") else "") for f in fns)
     key = script
     cnt, fails = {}, []
     rng = random.Random(len(script))
@@ -136,12 +142,18 @@ def _check_inner(case):
 
     # API side: every function compiled from its source string
     api = {}
+    srcs = {}
     for f in fns:
         try:
             api[f["name"]] = qlassf(f["src"], to_compile=True)
+            srcs[f["name"]] = f["src"]
+            if f.get("alias"):
+                api[f["alias"]] = api[f["name"]]
+                srcs[f["alias"]] = f["src"]
+                cnt["aliased_entry_points"] = 1
         except Exception as e:
             return {"status": "rejected", "key": key, "counters": {f"rejected:{type(e).__name__}": 1}}
-    choices = [f["name"] for f in fns] if len(fns) > 1 else [None, fns[0]["name"]]
+    choices = list(api) if len(api) > 1 else [None, fns[0]["name"]]
     nontrivial = False
     scratch = os.environ.get("VQ_SCRATCH") or tempfile.gettempdir()
     for ep in choices:
@@ -230,7 +242,7 @@ def _check_inner(case):
             if exc is not None:
                 fail("py2qasm_exception", f"py2qasm {argv}: {type(exc).__name__}: {exc}")
                 continue
-            ref = qlassf([f["src"] for f in fns if f["name"] == sel.name][0], to_compile=False)
+            ref = qlassf(srcs[ep] if ep else fns[0]["src"], to_compile=False)
             ref.compile(compiler="internal")
             exp = QasmExporter(version=3 if ver == "3.0" else 2).export(ref.circuit(), mode="circuit")
             if out.strip() != exp.strip():
